@@ -4,6 +4,9 @@ user's original functions, recorded under the physical point, and memoized — f
 space, every preprocessing configuration, arbitrary original functions and every request history.
 -/
 import GemseoVerif.Lemmas.C01
+import GemseoVerif.Lemmas.C01Sparse
+import GemseoVerif.Lemmas.C14Round
+import GemseoVerif.Props.C02
 
 namespace GV.C01
 open GV.C02
@@ -434,6 +437,266 @@ theorem same_result_as_first_time (rs1 rs2 : List Req) (n : String) (x y : List 
 
 end
 
+
+/-! ### The container of the user's Jacobian and `support_sparse_jacobian` are unobservable
+
+The Jacobian sequence scales a sparse container by the factor of each entry's *column*; this
+commutes with `todense`, so `jac → to_dense → normalize_grad` and `jac → normalize_grad [→ to_dense]`
+denote the same matrix, whatever the format the entries are stored in. -/
+
+/-- **The Jacobian sequence, viewed as a matrix, is `normalize_grad` of the user's matrix**, for a
+    dense array and for every sparse container (any format, any stored entries, duplicates
+    included), with or without `support_sparse_jacobian`. -/
+theorem jacSeq_view (ds : DS) (nrm ssj : Bool) (u : UserJac)
+    (h : ∀ s, u = .sparse s → ColsOk ds s.ncols) :
+    (jacSeq ds nrm ssj u).view = if nrm then u.view.map ds.normalizeGrad else u.view := by
+  cases u with
+  | dense m => cases nrm <;> simp [jacSeq, UserJac.view]
+  | sparse s =>
+    have hc := h s rfl
+    cases ssj
+    · cases nrm <;> simp [jacSeq, UserJac.view]
+    · cases nrm
+      · simp [jacSeq, UserJac.view]
+      · simp only [jacSeq, UserJac.view, if_true]
+        rw [toDense_scaleCols]
+        apply List.map_congr_left
+        intro row hrow
+        rw [normalizeGrad_eq_mapIdx]
+        rw [toDense_rows_length s row hrow]
+        exact hc
+
+/-- **The recorded Jacobian, viewed as a matrix, is `unnormalize_grad` of what the sequence
+    returned**, for dense and sparse containers alike. -/
+theorem recSeq_view (ds : DS) (nrm : Bool) (jn : UserJac)
+    (h : ∀ s, jn = .sparse s → ColsOk ds s.ncols) :
+    (recSeq ds nrm jn).view = if nrm then jn.view.map ds.unnormalizeGrad else jn.view := by
+  cases nrm
+  · simp [recSeq]
+  · cases jn with
+    | dense m => simp [recSeq, UserJac.view]
+    | sparse s =>
+      have hc := h s rfl
+      simp only [recSeq, UserJac.view, if_true]
+      rw [toDense_scaleCols]
+      apply List.map_congr_left
+      intro row hrow
+      rw [unnormalizeGrad_eq_mapIdx]
+      rw [toDense_rows_length s row hrow]
+      exact hc
+
+/-- Sparse outputs of the sequence have the columns of the user's container. -/
+theorem jacSeq_cols (ds : DS) (nrm ssj : Bool) (u : UserJac)
+    (h : ∀ s, u = .sparse s → ColsOk ds s.ncols) :
+    ∀ s, jacSeq ds nrm ssj u = .sparse s → ColsOk ds s.ncols := by
+  intro s hs
+  cases u with
+  | dense m => simp [jacSeq] at hs
+  | sparse s0 =>
+    have hc := h s0 rfl
+    cases ssj
+    · simp [jacSeq] at hs
+    · cases nrm
+      · simp only [jacSeq, if_true, Bool.false_eq_true, if_false, UserJac.sparse.injEq] at hs
+        subst hs; exact hc
+      · simp only [jacSeq, if_true, UserJac.sparse.injEq] at hs
+        subst hs; exact hc
+
+section
+variable (ds : DS) (cfg : Cfg) (ssj : Bool) (val : String → List Rat → List Rat)
+  (ujac : String → List Rat → UserJac)
+
+/-- Every sparse Jacobian the user returns has one column per design-space component. -/
+def ShapesOk : Prop := ∀ n p s, ujac n p = .sparse s → ColsOk ds s.ncols
+
+/-- The user's Jacobian as a matrix. -/
+def viewJac (n : String) (p : List Rat) : Mat := (ujac n p).view
+
+theorem jacCallerC_eq (h : ShapesOk ds ujac) (n : String) (x : List Rat) :
+    jacCallerC ds cfg ssj ujac n x = jacCaller ds cfg (viewJac ujac) n x := by
+  unfold jacCallerC jacCaller viewJac
+  exact jacSeq_view ds cfg.normalized ssj _ (h n _)
+
+theorem jacRecordedC_eq (h : ShapesOk ds ujac) (n : String) (x : List Rat) :
+    jacRecordedC ds cfg ssj ujac n x = jacRecorded ds cfg (viewJac ujac) n x := by
+  unfold jacRecordedC jacRecorded
+  rw [recSeq_view ds cfg.normalized _ (jacSeq_cols ds cfg.normalized ssj _ (h n _))]
+  have := jacCallerC_eq ds cfg ssj ujac h n x
+  unfold jacCallerC at this
+  rw [this]
+
+/-- **One Jacobian request on the container level = the same request on the matrix level.** -/
+theorem evalJacC_eq (h : ShapesOk ds ujac) (st : St) (n : String) (x : List Rat) :
+    evalJacC ds cfg ssj ujac st n x = evalJac ds cfg (viewJac ujac) st n x := by
+  unfold evalJacC evalJac
+  rw [jacCallerC_eq ds cfg ssj ujac h, jacRecordedC_eq ds cfg ssj ujac h]
+
+/-- **Every history on the container level = the same history on the matrix level**: the format
+    the user's Jacobian is stored in (dense, CSR, CSC, COO; entry order; explicit duplicates) and
+    the `support_sparse_jacobian` switch never change returned Jacobians, database or call log. -/
+theorem runC_eq_run (h : ShapesOk ds ujac) (rs : List Req) (st : St) :
+    runC ds cfg ssj val ujac st rs = run ds cfg val (viewJac ujac) st rs := by
+  induction rs generalizing st with
+  | nil => rfl
+  | cons r rs ih =>
+    simp only [runC, run, List.foldl_cons]
+    have hstep : stepC ds cfg ssj val ujac st r = step ds cfg val (viewJac ujac) st r := by
+      unfold stepC step
+      cases r.kind
+      · rfl
+      · simp only [evalJacC_eq ds cfg ssj ujac h]
+    rw [hstep]
+    exact ih _
+
+/-- Two users returning the same matrices in different containers, with different
+    `support_sparse_jacobian` switches, are indistinguishable. -/
+theorem container_unobservable (ssj' : Bool) (ujac' : String → List Rat → UserJac)
+    (h : ShapesOk ds ujac) (h' : ShapesOk ds ujac') (hv : ∀ n p, (ujac n p).view = (ujac' n p).view)
+    (rs : List Req) :
+    runC ds cfg ssj val ujac St.init rs = runC ds cfg ssj' val ujac' St.init rs := by
+  rw [runC_eq_run ds cfg ssj val ujac h, runC_eq_run ds cfg ssj' val ujac' h']
+  have : viewJac ujac = viewJac ujac' := by
+    funext n p; exact hv n p
+  rw [this]
+
+/-- **Faithful Jacobian on the container level**, along every history. -/
+theorem evalJacC_faithful (h : ShapesOk ds ujac) (rs : List Req) (n : String) (x : List Rat) :
+    (evalJacC ds cfg ssj ujac (runC ds cfg ssj val ujac St.init rs) n x).2
+      = jacCaller ds cfg (viewJac ujac) n x := by
+  rw [runC_eq_run ds cfg ssj val ujac h, evalJacC_eq ds cfg ssj ujac h]
+  exact eval_jac_faithful ds cfg val (viewJac ujac) _ (inv_reachable ds cfg val (viewJac ujac) rs) n x
+
+end
+
+/-! ### Design spaces reached through edit histories -/
+
+/-- The flat views of a design space reached by ANY history of public edits have its dimension:
+    the container theorems apply to every such space. -/
+theorem colsOk_of_edits (tol : Rat) (ops : List Op) :
+    ColsOk (spaceOf tol ops) (spaceOf tol ops).dimension := by
+  have hwf := wf_reachable tol ops
+  have hv := views_have_dimension (DS.empty.run tol ops) hwf
+  exact ⟨hv.2.2.1, hv.1, hv.2.1⟩
+
+private theorem find?_map_update (vars : List Var) (n : String) (f : Var → Var)
+    (hf : ∀ v, (f v).name = v.name) :
+    (vars.map (fun v => if v.name == n then f v else v)).find? (·.name == n)
+      = (vars.find? (·.name == n)).map f := by
+  induction vars with
+  | nil => rfl
+  | cons v vs ih =>
+    simp only [List.map_cons, List.find?_cons]
+    by_cases hv : (v.name == n) = true
+    · simp [hv, hf]
+    · simp only [hv, Bool.false_eq_true, if_false]
+      exact ih
+
+/-- **The normalization policy follows a bound edit**: after `set_upper_bound`, the variable carries
+    the new upper bound (everything else unchanged), hence its policy — a function of the bounds
+    stored in the variable — is the policy of the NEW bounds. -/
+theorem policy_follows_setUpperBound (d d' : DS) (n : String) (ub : List (Option Rat)) (v : Var)
+    (hv : d.find? n = some v) (h : d.setUpperBound n ub = some d') :
+    d'.find? n = some { v with ub := ub } ∧ d'.intNorm = d.intNorm ∧
+    Var.normMask d'.intNorm { v with ub := ub }
+      = (v.lb.zip ub).map (fun p => (!v.isInt || d.intNorm) && p.1.isSome && p.2.isSome) := by
+  unfold DS.setUpperBound at h
+  rw [hv] at h
+  simp only at h
+  split at h
+  · simp only [Option.some.injEq] at h
+    subst h
+    refine ⟨?_, rfl, rfl⟩
+    unfold DS.find? updVar
+    simp only
+    unfold DS.find? at hv
+    rw [find?_map_update d.vars n (fun v => { v with ub := ub }) (fun _ => rfl), hv]
+    rfl
+  · cases h
+
+theorem policy_follows_setLowerBound (d d' : DS) (n : String) (lb : List (Option Rat)) (v : Var)
+    (hv : d.find? n = some v) (h : d.setLowerBound n lb = some d') :
+    d'.find? n = some { v with lb := lb } ∧ d'.intNorm = d.intNorm ∧
+    Var.normMask d'.intNorm { v with lb := lb }
+      = (lb.zip v.ub).map (fun p => (!v.isInt || d.intNorm) && p.1.isSome && p.2.isSome) := by
+  unfold DS.setLowerBound at h
+  rw [hv] at h
+  simp only at h
+  split at h
+  · simp only [Option.some.injEq] at h
+    subst h
+    refine ⟨?_, rfl, rfl⟩
+    unfold DS.find? updVar
+    simp only
+    unfold DS.find? at hv
+    rw [find?_map_update d.vars n (fun v => { v with lb := lb }) (fun _ => rfl), hv]
+    rfl
+  · cases h
+
+/-! ### The physical point, component by component -/
+
+/-- **Physical point with normalized inputs**: component `i` is the affine image
+    `x_i (ub_i - lb_i) + lb_i` when the component is normalized *in the current design space*
+    (whatever the edits that led to it), `x_i` otherwise, then rounded half-to-even when the
+    component is an integer. -/
+theorem phys_component (ds : DS) (cfg : Cfg) (hn : cfg.normalized = true) (x : List Rat) (i : Nat)
+    (nm it : Bool) (l u : Option Rat) (xi : Rat)
+    (hm : ds.normMask[i]? = some nm) (hl : ds.flatLb[i]? = some l) (hu : ds.flatUb[i]? = some u)
+    (hi : ds.intMask[i]? = some it) (hx : x[i]? = some xi) :
+    (phys ds cfg x)[i]? = some (roundIf it (unnormComp true nm l u xi)) := by
+  unfold phys DS.unnormalizeVect
+  simp only [hn, if_true]
+  rw [List.getElem?_zipWith, hi, zipWith4_getElem?_all, hm, hl, hu, hx]
+  rfl
+
+/-- A bounded normalized component: `lb + x (ub - lb)`. -/
+theorem unnormComp_bounded (l u x : Rat) :
+    unnormComp true true (some l) (some u) x = l + x * (u - l) := by
+  simp [unnormComp, scaleOf]; ring
+
+/-- **Integer components are rounded to a nearest integer** (never truncated, floored or ceiled):
+    the physical value is an integer within 1/2 of the unrounded image. -/
+theorem phys_integer_component_nearest (ds : DS) (cfg : Cfg) (hn : cfg.normalized = true)
+    (x : List Rat) (i : Nat) (nm : Bool) (l u : Option Rat) (xi : Rat)
+    (hm : ds.normMask[i]? = some nm) (hl : ds.flatLb[i]? = some l) (hu : ds.flatUb[i]? = some u)
+    (hi : ds.intMask[i]? = some true) (hx : x[i]? = some xi) :
+    ∃ k : Int, (phys ds cfg x)[i]? = some (k : Rat) ∧
+      (k : Rat) - unnormComp true nm l u xi ≤ 1 / 2 ∧ unnormComp true nm l u xi - (k : Rat) ≤ 1 / 2 := by
+  refine ⟨GV.roundHalfEven (unnormComp true nm l u xi), ?_, GV.C14.roundHalfEven_near _⟩
+  rw [phys_component ds cfg hn x i nm true l u xi hm hl hu hi hx]
+  rfl
+
+/-- Without normalized inputs the physical point is the caller's point, integer components rounded
+    when rounding is on. -/
+theorem phys_component_unnormalized (ds : DS) (cfg : Cfg) (hn : cfg.normalized = false)
+    (x : List Rat) (i : Nat) (it : Bool) (xi : Rat)
+    (hi : ds.intMask[i]? = some it) (hx : x[i]? = some xi) :
+    (phys ds cfg x)[i]? = some (if roundOn ds cfg then roundIf it xi else xi) := by
+  unfold phys DS.roundVect
+  simp only [hn, Bool.false_eq_true, if_false]
+  cases roundOn ds cfg
+  · simpa using hx
+  · simp only [if_true]
+    rw [List.getElem?_zipWith, hi, hx]
+
+/-- **Whole sessions**: for every history of public edits of the design space, every preprocessing
+    configuration (incl. `support_sparse_jacobian`), every user function and every container of its
+    Jacobian, every request history: values and Jacobians are faithful. -/
+theorem session_faithful (tol : Rat) (ops : List Op) (cfg : Cfg) (ssj : Bool)
+    (val : String → List Rat → List Rat) (ujac : String → List Rat → UserJac)
+    (hshape : ∀ n p s, ujac n p = .sparse s → s.ncols = (spaceOf tol ops).dimension)
+    (rs : List Req) (n : String) (x : List Rat) :
+    (evalValue (spaceOf tol ops) cfg val (runC (spaceOf tol ops) cfg ssj val ujac St.init rs) n x).2
+        = val n (phys (spaceOf tol ops) cfg x) ∧
+    (evalJacC (spaceOf tol ops) cfg ssj ujac (runC (spaceOf tol ops) cfg ssj val ujac St.init rs) n x).2
+        = jacCaller (spaceOf tol ops) cfg (viewJac ujac) n x := by
+  have hs : ShapesOk (spaceOf tol ops) ujac := by
+    intro m p s hsp
+    rw [hshape m p s hsp]
+    exact colsOk_of_edits tol ops
+  refine ⟨?_, evalJacC_faithful _ cfg ssj val ujac hs rs n x⟩
+  rw [runC_eq_run _ cfg ssj val ujac hs]
+  exact eval_value_faithful _ cfg val (viewJac ujac) _ (inv_reachable _ cfg val (viewJac ujac) rs) n x
+
 /-! ### Normalisation of linear functions is exact -/
 
 /-- `MDOLinearFunction.normalize` on one coefficient: `a·(l + s·t) = (a·s)·t + a·l`. -/
@@ -453,5 +716,39 @@ example : (run exDs exCfg exVal exJac St.init
 example : (evalJac exDs exCfg exJac St.init "f" [1/2, 0]).2 = [[2, 0]] := by decide +kernel
 example : (evalJac exDs exCfg exJac St.init "f" [1/2, 0]).1.db.map (·.outs)
     = [[(("f", .jacobian), [[1, 0]])]] := by decide +kernel
+
+/-! Containers: a CSC Jacobian on a space with ranges 2, 4 and an unbounded component (hypotheses of
+    `jacSeq_view` / `ShapesOk` are satisfiable; both orders of `to_dense` and `normalize_grad` agree). -/
+def exSp : Sparse := ⟨.csc, 2, 3, [(0, 0, 1), (1, 0, 5), (1, 1, 4), (0, 2, 1), (1, 2, 2)]⟩
+def exDs3 : DS := { vars := [⟨"a", false, [some 0], [some 2], none⟩,
+  ⟨"b", false, [some (-1)], [some 3], none⟩, ⟨"c", false, [none], [none], none⟩] }
+
+example : ColsOk exDs3 exSp.ncols := by unfold ColsOk; decide
+example : (jacSeq exDs3 true true (.sparse exSp)).view = [[2, 0, 1], [10, 16, 2]] := by decide +kernel
+example : (jacSeq exDs3 true false (.sparse exSp)).view = [[2, 0, 1], [10, 16, 2]] := by decide +kernel
+example : (jacSeq exDs3 true false (.dense exSp.toDense)).view = [[2, 0, 1], [10, 16, 2]] := by
+  decide +kernel
+
+/-- The defect class the column theorem excludes: the `indices` of a CSC container are ROW indices;
+    scaling the stored entries by the factor of that index does not commute with `todense`. -/
+def scaleByRowIndex (f : Nat → Rat) (s : Sparse) : Sparse :=
+  { s with entries := s.entries.map (fun e => (e.1, e.2.1, e.2.2 * f e.1)) }
+example : (scaleByRowIndex (colFactor exDs3) exSp).toDense ≠ exSp.toDense.map exDs3.normalizeGrad := by
+  decide +kernel
+
+/-! Edit histories: `x` created in `[0, +inf)` gets its upper bound from the setter (normalized
+    afterwards), and loses it again (not normalized any more). -/
+def exOps : List Op := [.add ⟨"x", false, [some 0], [none], some [1]⟩,
+  .add ⟨"y", false, [some (-1)], [some 1], none⟩, .setUb "x" [some 4]]
+example : (spaceOf 0 exOps).normMask = [true, true] := by decide +kernel
+example : phys (spaceOf 0 exOps) exCfg [1/4, 3/4] = [1, 1/2] := by decide +kernel
+example : phys (spaceOf 0 (exOps ++ [.setUb "x" [none]])) exCfg [2, 1/4] = [2, -1/2] := by
+  decide +kernel
+
+/-! Integer-only space: fractional parts on both sides of 1/2, negative values, ties to even. -/
+def exInt : DS := { vars := [⟨"n", true, [some (-10), some (-10)], [some 10, some 10], some [1, 1]⟩,
+  ⟨"m", true, [some 0], [some 20], some [4]⟩] }
+example : phys exInt ⟨true, true, true, true⟩ [27/10, -8/5, 5/2] = [3, -2, 2] := by decide +kernel
+example : phys exInt ⟨true, true, true, true⟩ [-36/10, 11/5, 7/2] = [-4, 2, 4] := by decide +kernel
 
 end GV.C01
